@@ -356,6 +356,9 @@ def t4_eviction(ck):
                         modlen = isinstance(lo, int) and isinstance(hi, int) and nslots is not None and 0 <= lo < hi <= nslots
                     elif isinstance(const_value(idx), int) and nslots is not None:
                         modlen = 0 <= const_value(idx) < nslots
+                    elif idx[0] == "bin" and idx[1] == "Rem" and isinstance(const_value(idx[3]), int) and nslots is not None:
+                        # x % N with the constant N = number of slots (e.g. Self::BUCKET_SIZE, the array's declared length)
+                        modlen = 0 < const_value(idx[3]) <= nslots
                 ck.req(modlen, "T4.index", "insert_or_replace", ior.where(), "eviction index %s is not within the slot array by construction (x %% self.entries.len(), or a range inside 0..BUCKET_SIZE)" % show(idx))
                 ck.sample({"rule": "T4", "eviction_index": show(idx)})
     ck.floor("T4", found, 1, "evicting indexed slot writes")
